@@ -96,13 +96,28 @@ def judge(hdr, ops, tree, config, rejections, stats):
         rejections.setdefault('C16', []).append(dict(tag=tag, what=what, replay=O.replay_text(hdr, ops, idx)))
 
     prev_snap = {}
+    build_cfg, build_log = cfg, log
+    attached = {}                   # per instance: False after attachLogger(nullptr) (harness sweepLogger)
     for idx, op in enumerate(ops):
         events = [e for e in op.events if e[0] in ('cb', 'log')]
+        if op.name == 'attachlogger':
+            attached[op.inst] = bool(op.args and op.args[0] == '1')
+            stats.inc('c16_attachlogger_ops')
+            if events:
+                stats.inc('checks_C16')
+                reject('attachlogger-not-silent', '`attachLogger` itself ran callbacks or produced records: %s' % events[:3], idx)
+        detached = build_log != 0 and not attached.get(op.inst, True)
+        log = 0 if detached else build_log
+        cfg = dict(build_cfg, log='0') if detached else build_cfg
         # ---------------------------------------------------------------- logger channel
         if log == 0:
+            if detached:
+                stats.inc('checks_C16')
+                stats.inc('c16_ops_with_logger_detached')
             if any(e[0] == 'log' for e in events):
                 stats.inc('checks_C16')
-                reject('log-without-logger', 'a logger record was produced in a build without logger during `%s`' % op.name, idx)
+                reject('log-without-logger', 'a logger record was produced %s during `%s`' % (
+                    'after attachLogger(nullptr)' if detached else 'in a build without logger', op.name), idx)
         else:
             judge_log(op, idx, events, tree, log, reject, stats)
         # ---------------------------------------------------------------- structure report
